@@ -3,7 +3,8 @@ import H4.Lemmas.Slab
 /-! # C19 — inspection tools report what is in the file (property theorems)
 
 `hdiff`: the element test of `array_diff` (`differs`), its counting loop, the object matching of `hdiff.c:match` and the
-exit status; `hdp`: dump order; `hdfimport`: shape rule.  Statements are about the code AS IT IS: several of them say
+exit status; `hdp`: dump order; `hdfimport`: shape rule, and the loop over the input files of one run (type / shape / reader of every
+file are those of the file alone).  Statements are about the code AS IT IS: several of them say
 precisely where the tool is blind (see the `example`s). -/
 namespace H4.Props.C19
 open H4.Tools H4.Slab
@@ -469,5 +470,129 @@ theorem import_count (np nr nc : Int) (s : List Int) (h : importShape np nr nc =
       subst this; simp [List.foldl]; rw [Int.mul_comm]
 
 example : importShape 1 3 4 = some [3, 4] ∧ importShape 2 3 4 = some [2, 3, 4] ∧ importShape 2 1 4 = none ∧ importShape 0 3 4 = none := by decide
+
+/-! ## hdfimport: one run over several input files
+
+`process` uses one input descriptor for all the files of the command line.  The statements below are about the loop as it
+is written: whatever the descriptor holds when a pass begins (`fl` is arbitrary, also for the first file: the descriptor is
+an uninitialised local), every file is read with the reader its own format asks for, gets the type and shape it would get
+alone, and a run is refused exactly when one of its files is. -/
+
+/-- the one flag `gtype` raises for a format (none for the integer formats) -/
+def impFlagsOf : ImpFmt → ImpFlags
+  | .text => { isText := true }
+  | .fp32 => { isFp32 := true }
+  | .fp64 => { isFp64 := true }
+  | .hdf => { isHdf := true }
+  | _ => {}
+
+/-- SDS type the manual promises -/
+def impDocType : ImpFmt → Option ImpOut → Option ImpOut
+  | .text, o => some (o.getD .fp32)
+  | .fp64, none => some .fp32
+  | .fp64, some .fp64 => some .fp64
+  | .fp64, some _ => none
+  | .fp32, none => some .fp32
+  | .in32, none => some .int32
+  | .in16, none => some .int16
+  | .in08, none => some .int8
+  | .hdf, o => some (o.getD .fp32)
+  | _, some _ => none
+
+theorem import_pass_initial (fl : ImpFlags) (f : ImpFile) : impPass fl f = impPass {} f := rfl
+
+theorem import_pass_spec (fl : ImpFlags) (f : ImpFile) (fl' : ImpFlags) (r : ImpRes) (h : impPass fl f = some (fl', r)) :
+    fl' = impFlagsOf f.fmt ∧ r.rd = f.fmt.layout ∧ some r.ty = impDocType f.fmt f.opt ∧
+    importShape f.np f.nr f.nc = some r.shape := by
+  obtain ⟨fmt, opt, np, nr, nc⟩ := f
+  unfold impPass at h
+  cases hs : importShape np nr nc with
+  | none => cases fmt <;> rcases opt with _ | o <;> (try cases o) <;> simp [gtype, impReset, hs] at h
+  | some sh =>
+    cases fmt <;> rcases opt with _ | o <;> (try cases o) <;>
+      simp [gtype, impReset, hs, impReader, impSdsType] at h <;>
+      (obtain ⟨h1, h2⟩ := h; subst h1; subst h2; simp [impFlagsOf, ImpFmt.layout, impDocType])
+
+theorem import_pass_refused_iff (fl : ImpFlags) (f : ImpFile) :
+    impPass fl f = none ↔ (impDocType f.fmt f.opt = none ∨ importShape f.np f.nr f.nc = none) := by
+  obtain ⟨fmt, opt, np, nr, nc⟩ := f
+  unfold impPass
+  cases hs : importShape np nr nc <;> cases fmt <;> rcases opt with _ | o <;> (try cases o) <;>
+    simp [gtype, impReset, impDocType]
+
+theorem import_run_independent (fl : ImpFlags) (fs : List ImpFile) :
+    importRun fl fs = fs.mapM (fun f => (impPass {} f).map (·.2)) := by
+  induction fs generalizing fl with
+  | nil => rfl
+  | cons f rest ih =>
+    rw [importRun, import_pass_initial fl f, List.mapM_cons]
+    cases h : impPass {} f with
+    | none => simp
+    | some p =>
+      obtain ⟨fl', r⟩ := p
+      simp only [ih fl', Option.map_some]
+      cases hr : rest.mapM (fun f => (impPass {} f).map (·.2)) <;> simp
+
+theorem import_run_reader (fl : ImpFlags) (fs : List ImpFile) (rs : List ImpRes) (h : importRun fl fs = some rs) :
+    rs.map (·.rd) = fs.map (·.fmt.layout) := by
+  induction fs generalizing fl rs with
+  | nil => simp [importRun] at h; subst h; rfl
+  | cons f rest ih =>
+    rw [importRun] at h
+    cases hp : impPass fl f with
+    | none => simp [hp] at h
+    | some p =>
+      obtain ⟨fl', r⟩ := p
+      simp only [hp] at h
+      cases hr : importRun fl' rest with
+      | none => simp [hr] at h
+      | some rs' =>
+        simp [hr] at h; subst h
+        have := import_pass_spec fl f fl' r hp
+        simp [ih fl' rs' hr, this.2.1]
+
+theorem import_run_results (fl : ImpFlags) (fs : List ImpFile) (rs : List ImpRes) (h : importRun fl fs = some rs) :
+    rs.map (fun r => (some r.ty, some r.shape)) = fs.map (fun f => (impDocType f.fmt f.opt, importShape f.np f.nr f.nc)) := by
+  induction fs generalizing fl rs with
+  | nil => simp [importRun] at h; subst h; rfl
+  | cons f rest ih =>
+    rw [importRun] at h
+    cases hp : impPass fl f with
+    | none => simp [hp] at h
+    | some p =>
+      obtain ⟨fl', r⟩ := p
+      simp only [hp] at h
+      cases hr : importRun fl' rest with
+      | none => simp [hr] at h
+      | some rs' =>
+        simp [hr] at h; subst h
+        have := import_pass_spec fl f fl' r hp
+        simp [ih fl' rs' hr, this.2.2.1, this.2.2.2]
+
+theorem import_run_refused_iff (fl : ImpFlags) (fs : List ImpFile) :
+    importRun fl fs = none ↔ ∃ f ∈ fs, impDocType f.fmt f.opt = none ∨ importShape f.np f.nr f.nc = none := by
+  induction fs generalizing fl with
+  | nil => simp [importRun]
+  | cons f rest ih =>
+    rw [importRun]
+    cases hp : impPass fl f with
+    | none =>
+      have := (import_pass_refused_iff fl f).1 hp
+      simp [this]
+    | some p =>
+      obtain ⟨fl', r⟩ := p
+      have hn : ¬ (impDocType f.fmt f.opt = none ∨ importShape f.np f.nr f.nc = none) := by
+        intro hc; have := (import_pass_refused_iff fl f).2 hc; simp [hp] at this
+      simp only [Option.map_eq_none_iff, ih fl', List.mem_cons, exists_eq_or_imp, hn, false_or]
+
+/-- hypotheses are satisfiable: an FP32 file followed by an FP64 file (imported as FLOAT32) followed by a text file -/
+example : importRun {} [⟨.fp32, none, 1, 3, 4⟩, ⟨.fp64, none, 1, 4, 5⟩, ⟨.text, some .int16, 2, 2, 3⟩] =
+    some [⟨.fp32, [3, 4], .raw 4⟩, ⟨.fp32, [4, 5], .raw 8⟩, ⟨.int16, [2, 2, 3], .scan⟩] := by decide
+
+/-- the per-pass reset is what the statements rest on: with the FP32 flag of an earlier file still up, `gfloat` takes an FP64
+    file four bytes at a time, and with the TEXT flag still up every binary file is scanned as text -/
+example : impReader { isFp32 := true, isFp64 := true } (some .fp32) = .raw 4 ∧
+    impReader { isText := true, isFp32 := true } (some .fp32) = .scan ∧
+    ImpFmt.fp64.layout = .raw 8 := by decide
 
 end H4.Props.C19
